@@ -592,6 +592,10 @@ class Exec:
             else: raise Undecided('%s() of %s' % (which, type(v).__name__))
             st.assume.append(z3.Implies(nz()[0], B) if which == 'any' else z3.Implies(B, nz()[0]))
             return BoolV(B)
+        if fn == 'tuple' and len(n.args) == 1:
+            v = self.ev(n.args[0])
+            if isinstance(v, tuple): return v
+            raise Undecided('tuple() of %s' % type(v).__name__)
         if fn in ('float', 'int') and len(n.args) == 1:
             v = self.ev(n.args[0])
             if fn == 'float': return Cell(alg.of_int(v.t)) if isinstance(v, IntV) else v
@@ -604,6 +608,8 @@ class Exec:
             raise Undecided('type() of %s' % type(v).__name__)
         if fn == 'len' and len(n.args) == 1:
             v = self.ev(n.args[0])
+            if isinstance(v, tuple) and v and v[0] == 'shape':
+                st.fresh += 1; r_ = z3.Int('rank!%d' % st.fresh); st.assume.append(r_ >= 2); return IntV(r_)      # number of axes: unknown (>= 2)
             if isinstance(v, (tuple, list)): return IntV(len(v))
             if isinstance(v, (View, Lazy)): return IntV(v.length)
             raise Undecided('len')
@@ -680,7 +686,18 @@ class Exec:
         if fn == 'numpy.linalg.solve' and alg.name == 'mat':
             a, b = self.ev(n.args[0]), self.ev(n.args[1]); return Cell(alg.dot(alg.f_inv(a.t), b.t))
         if fn == 'numpy.promote_types': return TypeV('dtype')
-        if fn == 'numpy.zeros' and alg.name == 'mat': return Cell(alg.Zero)
+        if fn == 'numpy.zeros' and alg.name == 'mat':
+            if n.args and isinstance(n.args[0], ast.Attribute) and n.args[0].attr == 'shape':
+                src = self.ev(n.args[0].value)
+                if isinstance(src, (View, Lazy)):            # numpy.zeros(a.shape): a whole coefficient array of zero matrices
+                    bid = st.new_base(src.length, z3.K(I, alg.Zero), name='zeros'); return View(bid, z3.IntVal(0), 1, src.length)
+            return Cell(alg.Zero)                            # any other shape expression: one zero matrix temporary
+        if fn == 'numpy.transpose' and alg.name == 'mat' and len(n.args) == 1 and 'axes' in kw and ast.unparse(kw['axes']).replace(' ', '').startswith('(0,1)+'):
+            # the (D,P) axes stay in front, the trailing axes are permuted: the transpose of every matrix cell  (assumption A3c: the
+            # trailing permutation computed by the caller is the reversal, i.e. the matrix transpose for 2-D cells)
+            a = self.ev(n.args[0])
+            if isinstance(a, Cell): return Cell(alg.f_T(a.t))
+            f = st.elem(a); return Lazy(a.length, lambda i: alg.f_T(f(i)))
         if fn == 'nthderiv.np_filled_like':
             # np_filled_like(x, c, out=out): out.fill(c) if out given else new array filled with c   [contract of
             # algopy.nthderiv.np_filled_like, verified separately in ixvc/structural part and cross-checked natively]
